@@ -36,6 +36,11 @@ func tid(t types.Type) string {
 	if id, ok := typeIDs[t]; ok {
 		return id
 	}
+	if a, ok := t.(*types.Alias); ok {
+		id := tid(types.Unalias(a))
+		typeIDs[t] = id
+		return id
+	}
 	id := types.TypeString(t, nil)
 	typeIDs[t] = id
 	if _, ok := typeTab[id]; ok {
@@ -57,11 +62,6 @@ func tid(t types.Type) string {
 		if n.Obj().Pkg() != nil {
 			d["pkg"] = n.Obj().Pkg().Path()
 		}
-	}
-	if a, ok := t.(*types.Alias); ok {
-		d["kind"] = "alias"
-		d["elem"] = tid(types.Unalias(a))
-		return id
 	}
 	switch u := t.Underlying().(type) {
 	case *types.Basic:
